@@ -1043,7 +1043,9 @@ class Result:
             family = value.get('family',lrn_id)
             params = [f'{k}={v}' for k,v in value.items() if k and k not in ['family','learner_id'] and v is not Missing ]
             params = f"({', '.join(params)})" if params else ''
-            value['full_name'] = f"{lrn_id}. {family}{params}" if family != 'vw' else f"{lrn_id}. {family}({value['args']}, seed={value['seed']})"
+            #the short vw name needs both of the fields it shows, any other learner that calls its family 'vw' is named like the rest
+            is_vw = family == 'vw' and 'args' in value and 'seed' in value
+            value['full_name'] = f"{lrn_id}. {family}{params}" if not is_vw else f"{lrn_id}. {family}({value['args']}, seed={value['seed']})"
 
         self._plotter = MatplotPlotter()
 
